@@ -52,6 +52,10 @@ pub mod api {
         fn vars_os(&mut self) -> Vec<(OsString, OsString)> {
             Vec::new()
         }
+        /// `flush` of `io::stdout()`/`io::stderr()`
+        fn flush(&mut self, _fd: i32) -> Result<(), String> {
+            Ok(())
+        }
         /// `true` drops the output of the print macros unformatted (used while a harness only
         /// wants the verdict of `check_invariants`, whose debug dump is large)
         fn mute(&mut self) -> bool {
@@ -204,8 +208,10 @@ pub(crate) mod std {
             }
 
             fn flush(&mut self) -> Result<()> {
-                match crate::verif::api::with(|_| ()) {
-                    Some(()) => Ok(()),
+                let fd = self.fd;
+                match crate::verif::api::with(|w| w.flush(fd)) {
+                    Some(Ok(())) => Ok(()),
+                    Some(Err(e)) => Err(Error::new(ErrorKind::Other, e)),
                     None if self.fd == 1 => ::std::io::stdout().flush(),
                     None => ::std::io::stderr().flush(),
                 }
